@@ -97,14 +97,14 @@ def parsePol (v : String) : Option (Option Policy) :=
     limits (the no-overflow hypothesis of the theorems); otherwise the exact
     monitor is not applied to the case. -/
 def fitsRoute (g : Graph) (rt : Route) : Bool :=
-  let big : Nat := 2 ^ 62
+  let big : Nat := 2 ^ 60
   rt.totalAmt < big && rt.totalTL < 2 ^ 31 &&
   rt.hops.all (fun h => decide (h.amt < big) && decide (h.tl < 2 ^ 31)) &&
   g.all (fun c =>
     let ok (p : Option Policy) : Bool := match p with
       | none => true
       | some p => decide (rt.totalAmt * p.rate < 2 ^ 63) && decide (p.base < big) &&
-          decide ((clampRate p.inRate).natAbs * (2 * rt.totalAmt + p.base + 1) < 2 ^ 62)
+          decide ((clampRate p.inRate).natAbs * (2 * rt.totalAmt + p.base + 1) < 2 ^ 61)
     ok c.p1 && ok c.p2 && decide (c.cap * 1000 < 2 ^ 63))
 
 /-- name of the first violated clause of `routeOK` (diagnostics only). -/
